@@ -142,6 +142,13 @@ def gen_fixture(kind, rng, feat=None, seed=None):
     feat = {f: bool(feat.get(f, f == 'cast')) for f in FEATURES}
     if kind in ('member', 'modproc'):
         feat.update(imp_k=False, imp_ot=False, imp_proc=False, defs=False)
+    # switches that do not apply to the kind are normalised to False
+    if kind not in ('sub', 'file'):
+        feat['members'] = False
+    if kind != 'mod':
+        feat['typedef'] = False
+    if not (feat['imp_k'] or feat['imp_ot'] or feat['imp_proc']):
+        feat['defs'] = False
     if kind in ('sub', 'file'):
         members = [_small_member('inner_a', '  ', 'shadow', callee='inner_b'), _small_member('inner_b', '  ', 'host')] \
             if feat['members'] else []
